@@ -133,6 +133,33 @@ def converterOps : List String :=
 
 def writerOps : List String := ["write.osu", "write.quaver", "write.sm", "write.bms"]
 
+/-- the file entry points of the writers (`write_file(path)`) -/
+def fileWriterOps : List String := ["write_file.osu", "write_file.quaver", "write_file.sm", "write_file.bms"]
+
+/-- an accessor: hands out the argument's own cells (or views of them); not a copy, nothing is claimed about
+changing its result — only that the call itself writes nothing and reaches nothing but its arguments' cells -/
+def shareAll (name : String) (arity : Nat := 1) : Sig :=
+  { name, arity, writes := [], shares := (List.range arity).map (fun i => (i, "*")), copy := false, deep := false }
+
+/-- queries, constructors and analyses of the public surface of TimedList / HoldList / BpmList / Map / MapSet /
+Pattern / ConvertBase that return a new value (a scalar, a string, a new array, frame, item or list) -/
+def queryOps : List (String × Nat) :=
+  [("list.getitem_int", 1), ("list.iter", 1), ("list.empty", 0),
+   ("list.describe", 1), ("list.first_offset", 1), ("list.last_offset", 1), ("list.first_last_offset", 1),
+   ("list.time_diff", 1), ("list.len", 1), ("list.repr", 1), ("list.cmp", 2),
+   ("hold.tail_offset", 1),
+   ("bpm.current_bpm", 1), ("bpm.snap_offsets", 1), ("bpm.ave_bpm", 1),
+   ("map.metadata", 1), ("map.describe", 1), ("map.metadata_in_set", 2), ("map.describe_in_set", 2), ("mapset.describe", 1),
+   ("list.cast", 2), ("ptn.len", 1), ("ptn.v_mask", 1), ("ptn.h_mask", 1)]
+
+/-- accessors of the public surface: the frame itself, a column of it, `to_numpy` (a view of the frame's buffer when
+the list's columns have one dtype, e.g. every tempo list), `from_dict` (the new frame's object cells ARE the
+caller's list objects: `DataFrame.from_dict` copies pointers), the chart's lists, the set's charts, the stacked views
+(made to write through) -/
+def accessorOps : List (String × Nat) :=
+  [("list.df", 1), ("list.column", 1), ("list.to_numpy", 1), ("list.from_dict", 1), ("hold.head_offset", 1), ("map.getitem", 1), ("map.stack", 1),
+   ("mapset.iter", 1), ("mapset.items", 1), ("mapset.getitem", 1), ("mapset.stack", 1)]
+
 def converterSig (name : String) : Sig :=
   { name, arity := 1, writes := [], shares := [], copy := true, deep := true }
 
@@ -161,7 +188,13 @@ def opTable : List Sig :=
   writerOps.map (fun n => pureCopy n) ++
   [ pureCopy "alg.full_ln" 1 true, pureCopy "alg.hitsound_copy" 2 true,
     pureCopy "alg.sv_normalize", pureCopy "alg.scroll_speed", pureCopy "alg.dominant_bpm",
-    pureCopy "ptn.from_note_lists" 2, pureCopy "ptn.group", pureCopy "ptn.combinations" ]
+    pureCopy "ptn.from_note_lists" 2, pureCopy "ptn.group", pureCopy "ptn.combinations" ] ++
+  fileWriterOps.map (fun n => pureCopy n) ++
+  queryOps.map (fun q => pureCopy q.1 q.2) ++
+  accessorOps.map (fun q => shareAll q.1 q.2) ++
+  [ -- `BpmList.to_timing_map`: a new TimingMap that holds the process-wide default `Snapper` (a dataclass default,
+    -- one object for all TimingMaps): argument 1 is that object; nothing of the tempo list is shared
+    { name := "bpm.to_timing_map", arity := 2, writes := [], shares := [(1, "*")], copy := false, deep := false } ]
 
 def lookup (name : String) : Option Sig := opTable.find? (fun s => s.name = name)
 
